@@ -229,6 +229,9 @@ def gen_pzx_block(r, small=True, zero_pulses=True):
     if k == 0:      # PULS
         return blk(pulses=[(r.choice((1, 1, 2, 3, 4)), _dur(r, small)) for _ in range(r.randrange(0, 4))], pol=pol)
     if k == 1:      # PAUS
+        if not small and r.random() < 0.35:
+            # the 31-bit duration field at its byte boundaries (2^16, 2^24)
+            return blk(pause=r.choice((0xFFFF, 0x10000, 0xFFFFFF, 0x1000000, 0x1000001, 0x2345678)), pol=pol)
         return blk(pause=r.choice((1, 7, 100)) * (1 if small else MS), pol=pol)
     if k == 2:      # DATA, sample style (zero-length pulses)
         if zero_pulses:
